@@ -1206,7 +1206,6 @@ class Timezone(Component):
         """
         zone = self.tz_name
         transitions = []
-        dst = {}
         tznames = set()
         for component in self.walk():
             if type(component) == Timezone:
@@ -1226,14 +1225,18 @@ class Timezone(Component):
                          f"{component['TZOFFSETTO'].to_ical()}"
                 tzname = self._make_unique_tzname(tzname, tznames)
 
-            dst[tzname], component_transitions = self._extract_offsets(
+            # whether a transition is to daylight saving time is kept with the
+            # transition: several observances can have the same TZNAME
+            is_dst, component_transitions = self._extract_offsets(
                 component, tzname
             )
-            transitions.extend(component_transitions)
+            transitions.extend(
+                transition + (is_dst,) for transition in component_transitions
+            )
 
         transitions.sort()
         transition_times = [
-            transtime - osfrom for transtime, osfrom, _, _ in transitions
+            transtime - osfrom for transtime, osfrom, _, _, _ in transitions
         ]
 
         # transition_info is a list with tuples in the format
@@ -1241,21 +1244,21 @@ class Timezone(Component):
         # dstoffset = 0, if current transition is to standard time
         #           = this_utcoffset - prev_standard_utcoffset, otherwise
         transition_info = []
-        for num, (transtime, osfrom, osto, name) in enumerate(transitions):
+        for num, (transtime, osfrom, osto, name, is_dst) in enumerate(transitions):
             dst_offset = False
-            if not dst[name]:
+            if not is_dst:
                 dst_offset = timedelta(seconds=0)
             else:
                 # go back in time until we find a transition to dst
                 for index in range(num - 1, -1, -1):
-                    if not dst[transitions[index][3]]:  # [3] is the name
+                    if not transitions[index][4]:  # [4] is is_dst
                         dst_offset = osto - transitions[index][2]  # [2] is osto  # noqa
                         break
                 # when the first transition is to dst, we didn't find anything
                 # in the past, so we have to look into the future
                 if not dst_offset:
                     for index in range(num, len(transitions)):
-                        if not dst[transitions[index][3]]:  # [3] is the name
+                        if not transitions[index][4]:  # [4] is is_dst
                             dst_offset = osto - transitions[index][2]  # [2] is osto  # noqa
                             break
             assert dst_offset is not False
